@@ -18,6 +18,10 @@
 (* (R) reference machines, one action per step of the code:                             *)
 (*     augment():   AugClass (subclass creation: where the discount comes from),        *)
 (*                  AugSet (one per component, in the order of the code), AugInstantiate *)
+(*                  preceded by WarmBase when the call history says that the base's     *)
+(*                  array views / reachable set were read (or it was planned on) before: *)
+(*                  the base's views then sit in a cache (tally) that the derived MDP    *)
+(*                  must never show                                                      *)
 (*     sub-task:    the same machine with ovr = {initial, reward, absorbing} and the     *)
 (*                  option's overrides, followed by PlanStep (planner = exact oracle)    *)
 (*     Option.run_on / Policy.run_on: OptStep (one loop iteration: action, successor,   *)
@@ -102,10 +106,20 @@ Derived(m, o) ==
 Blank == [discount |-> Unset, initial |-> Unset, actions |-> Unset, next |-> Unset, reward |-> Unset,
           absorbing |-> Unset, state_list |-> Unset, action_list |-> Unset]
 
-\* a derived MDP as an instance record of MDP.tla (for the planning oracle)
+\* a derived MDP as an instance record of MDP.tla (for the planning oracle and the array views)
 AsInstance(m, dd) ==
   [N |-> m.N, K |-> m.K, PD |-> m.PD, GN |-> dd.discount[1], GD |-> dd.discount[2], ID |-> dd.initial[2],
    abs |-> dd.absorbing, avail |-> dd.actions, P |-> dd.next, R |-> dd.reward, p0 |-> dd.initial[1]]
+
+\* (O) the array views of a derived MDP (C06's clause applied to it): transition and reward arrays over
+\* available actions / positive-probability successors, absorbing vector (declared or implicit), reachable set
+Views(m, dd) ==
+  LET inst == AsInstance(m, dd) IN
+  [T |-> [s \in St(m) |-> [a \in Ac(m) |-> [t \in St(m) |-> IF inst.avail[s][a] = 1 THEN inst.P[s][a][t] ELSE 0]]],
+   R |-> [s \in St(m) |-> [a \in Ac(m) |-> [t \in St(m) |->
+            IF inst.avail[s][a] = 1 /\ inst.P[s][a][t] > 0 THEN inst.R[s][a][t] ELSE 0]]],
+   absvec |-> [s \in St(m) |-> IF s \in AbsAll(inst) THEN 1 ELSE 0],
+   reach |-> Reach(inst)]
 
 NonPositive(inst) ==
   \A s \in St(inst) : \A a \in Avail(inst, s) : \A t \in Succ(inst, s, a) : inst.R[s][a][t] <= 0
@@ -183,12 +197,12 @@ InitAug ==
   /\ Mode = "aug" /\ InitCommon
   /\ ovr \in (IF Batch[iid].allsub = 1 THEN SUBSET Comps(Batch[iid])
               ELSE {Range(x) : x \in Range(Batch[iid].ovrs)})
-  /\ pc = "class" /\ d = Blank
+  /\ pc = (IF Batch[iid].warm = "none" THEN "class" ELSE "warm") /\ d = Blank
   /\ cur = 0 /\ nst = 0 /\ cum = Zero
 InitPlan ==
   /\ Mode = "plan" /\ InitCommon
   /\ ovr = {"initial", "reward", "absorbing"}
-  /\ pc = "class" /\ d = Blank
+  /\ pc = (IF Batch[iid].warm = "none" THEN "class" ELSE "warm") /\ d = Blank
   /\ cur = 0 /\ nst = 0 /\ cum = Zero
 InitOpt ==
   /\ Mode = "opt" /\ InitCommon
@@ -213,6 +227,12 @@ NextComp(m, c) ==
     [] c = "absorbing"   -> IF m.tab = 1 THEN "state_list" ELSE "instance"
     [] c = "state_list"  -> "action_list"
     [] c = "action_list" -> "instance"
+\* call history: the base's arrays / reachable set were read, or it was planned on, before augment():
+\* its views are now cached on the base instance
+WarmBase ==
+  /\ Mode \in {"aug", "plan"} /\ pc = "warm" /\ pc' = "class"
+  /\ tally' = <<Views(M, Derived(M, {}))>>
+  /\ UNCHANGED <<iid, ovr, d, opt, cur, nst, cum, hist, j, l, fail>>
 \* class AugmentedMDP(mdp.__class__) with an empty __init__: the point where the discount is fixed
 AugClass ==
   /\ Mode \in {"aug", "plan"} /\ pc = "class"
@@ -287,7 +307,7 @@ TrFinish ==
           /\ UNCHANGED <<iid, ovr, d, opt, cur, nst, cum, hist, j, l, tally, fail>>
      ELSE Reject(IF M.outcome = "dist" THEN "wrong-number-of-simulations" ELSE "raised-without-raising-run")
 
-Next == AugClass \/ AugSet \/ AugInstantiate \/ PlanStep \/ OptStep \/ OptBreak \/ OptCheck
+Next == WarmBase \/ AugClass \/ AugSet \/ AugInstantiate \/ PlanStep \/ OptStep \/ OptBreak \/ OptCheck
         \/ TrStep \/ TrEnd \/ TrFinish
 Spec == Init /\ [][Next]_vars
 
@@ -295,10 +315,12 @@ Spec == Init /\ [][Next]_vars
 Emit ==
   CASE Mode = "aug" /\ pc = "done" ->
          PrintT(ToJson([kind |-> "aug", iid |-> iid, ovr |-> ovr, d |-> d,
-                        eff |-> Eff(M)]))
+                        eff |-> Eff(M), views |-> Views(M, d),
+                        cachediffers |-> (tally # <<>> /\ tally[1] # Views(M, d))]))
     [] Mode = "plan" /\ pc = "planned" ->
          PrintT(ToJson([kind |-> "plan", iid |-> iid, d |-> d, judge |-> opt.judge, v |-> opt.v, q |-> opt.q,
-                        nmax |-> opt.nmax, implabs |-> opt.implabs]))
+                        nmax |-> opt.nmax, implabs |-> opt.implabs, views |-> Views(M, d),
+                        cachediffers |-> (tally # <<>> /\ tally[1] # Views(M, d))]))
     [] Mode = "opt" /\ pc \in {"returned", "raised"} ->
          PrintT(ToJson([kind |-> "opt", iid |-> iid, s0 |-> IF hist = <<>> THEN cur ELSE hist[1][1],
                         hist |-> hist, end |-> cur, nst |-> nst, status |-> pc, cum |-> cum,
@@ -321,11 +343,25 @@ AugOverridden ==
   (Mode \in {"aug", "plan"} /\ pc \in {"done", "planned"}) => \A c \in ovr : d[c] = OvC(M, c)
 AugMatchesOracle ==
   (Mode \in {"aug", "plan"} /\ pc \in {"done", "planned"}) => d = Derived(M, ovr)
+\* the array views of the derived MDP are those of the oracle's derived MDP, whatever was cached on the base:
+\* every overridden reward / transition shows on the support, declared absorbing states are in the vector,
+\* the reachable set is closed from the derived initial support; the base's cache is left as it was
+ViewsOfDerived ==
+  (Mode \in {"aug", "plan"} /\ pc \in {"done", "planned"}) =>
+     LET v == Views(M, d) inst == AsInstance(M, d) IN
+     /\ v = Views(M, Derived(M, ovr))
+     /\ \A s \in St(M) : \A a \in Ac(M) : \A t \in St(M) :
+          (d.actions[s][a] = 1 /\ d.next[s][a][t] > 0) => (v.T[s][a][t] = d.next[s][a][t] /\ v.R[s][a][t] = d.reward[s][a][t])
+     /\ \A s \in St(M) : d.absorbing[s] = 1 => v.absvec[s] = 1
+     /\ InitSupp(inst) \subseteq v.reach
+     /\ \A s \in v.reach \ ExplAbs(inst) : Edges(inst, s) \subseteq v.reach
+     /\ (tally # <<>> => tally[1] = Views(M, Derived(M, {})))
 \* nothing is read before it was set, non-tabular bases get no lists
 AugOrder ==
   (Mode \in {"aug", "plan"}) =>
      /\ (M.tab = 0 => d.state_list = Unset /\ d.action_list = Unset)
-     /\ (pc = "class" => d = Blank)
+     /\ (pc \in {"warm", "class"} => d = Blank)
+     /\ (pc = "warm" => tally = <<>>)
 \* --- sub-goal sub-task: base discount, base dynamics, rewards clipped only off the sub-goals,
 \*     absorbing exactly at the sub-goals (and the base's absorbing states when asked), uniform start
 SubTaskSound ==
